@@ -277,4 +277,10 @@ PROPS['C16']['explanation'] = ('Closed theorems in two layers (Properties/C16.v)
     'by the arcs lines: Arc::as_ptr / Arc::strong_count of every shared node read through the hook after every mutating call and compared with the model step on the previous REAL view (Arcs). '
     'Partial, named: the view abstracts the tree (which node holds which Arc is taken from the dump, not re-derived), and memory reclamation itself (Arc drop, allocator) is std code outside the model.')
 
+PROPS['C13']['explanation'] = PROPS['C13']['explanation'].replace('(b) unknown constraint: Registry.insert_spec judged on every real insert.',
+    '(a) for every history (Proofs/ConstraintsP.v): C13_registration_outcome (refused with the type in force, router unchanged, or the pair appended), C13_original_stays_in_force / C13_check_function_stays - what is in force '
+    'under a name, and hence the check function every later search uses for it, never changes again whatever is called afterwards. (b) C13_unknown_constraint_refused: a parsable template is refused with UnknownConstraint, the router '
+    'unchanged, iff one of its parts names an unregistered constraint (C13_unknown_constraint_is_named_and_unregistered); also judged by Registry.insert_spec on every real insert. (d) for every history with the registered check functions: '
+    'C13_reachable_rejection_skips_one_alternative.')
+
 NOT_APPLICABLE = {}
